@@ -1,23 +1,35 @@
 #!/bin/sh
-# tools/seed_matrix.sh: run every stored seeded change against its property's quick check (sequentially, on /repo, undone afterwards)
-# and write seeded/RESULTS.md: which obligations report each change.
+# tools/seed_matrix.sh [jobs]: run every stored seeded change against its property's quick check and write seeded/RESULTS.md (which
+# obligations report each change).  Each property has its own scratch worktree of /repo's HEAD under /tmp/seedwt (tools/seedtest_wt.sh):
+# /repo, the committed evidence and the replay directory are not touched, and properties run in parallel (default 5 at a time; the
+# changes of one property run one after the other).  All scratch worktrees are removed at the end.
 cd /verif
-OUT=seeded/RESULTS.md
-echo "| seeded change | functions changed | reported by (obligations of the quick check) | exit |" > $OUT
-echo "|---|---|---|---|" >> $OUT
-for d in seeded/C*-*; do
-  id=$(basename $d); pid=${id%-*}
+JOBS="${1:-5}"
+mkdir -p /tmp/seedwt/rows
+rm -f /tmp/seedwt/rows/*
+cat > /tmp/seedwt/lane.sh <<'LANE'
+#!/bin/sh
+pid=$1
+cd /verif
+for d in seeded/$pid-*; do
+  id=$(basename $d)
   [ -f $d/patch.diff ] || continue
-  git -C /repo diff --quiet || { echo "repo dirty"; exit 9; }
-  if ! git -C /repo apply /verif/$d/patch.diff 2>/dev/null; then echo "| $id | | PATCH DOES NOT APPLY | |" >> $OUT; continue; fi
-  cp evidence/$pid.json /tmp/evidence.$pid.saved 2>/dev/null
-  ./check $pid --tier quick > /tmp/seed_$id.log 2>&1; rc=$?
-  git -C /repo checkout -- .
-  [ -f /tmp/evidence.$pid.saved ] && mv /tmp/evidence.$pid.saved evidence/$pid.json
-  obl=$(grep '^VIOLATION' /tmp/seed_$id.log | sed -E 's/.*replay=[^ ]*\/C[0-9]+__//; s/(__[0-9a-f]{8})?\.json.*//; s/__/\//g' | sort | uniq -c | sort -rn | awk '{printf "%s%s (x%s)", (NR>1?"; ":""), $2, $1}' | cut -c1-400)
-  nf=$(grep -c 'no-failing-input-found' /tmp/seed_$id.log)
+  tools/seedtest_wt.sh /verif/$d/patch.diff $pid quick $pid > /tmp/seedwt/$id.log 2>&1
+  if grep -q "PATCH DOES NOT APPLY" /tmp/seedwt/$id.log; then echo "| $id | | PATCH DOES NOT APPLY | |" > /tmp/seedwt/rows/$id; continue; fi
+  obl=$(grep '^VIOLATION' /tmp/seedwt/$id.log | sed -E 's/.*replay=[^ ]*\/C[0-9]+__//; s/(__[0-9a-f]{8})?\.json.*//; s/__/\//g' | sort | uniq -c | sort -rn | awk '{printf "%s%s (x%s)", (NR>1?"; ":""), $2, $1}' | cut -c1-400)
+  nf=$(grep -c 'no-failing-input-found' /tmp/seedwt/$id.log)
+  ce=$(grep -c '^CHECKER' /tmp/seedwt/$id.log)
   fn=$(python3 -c "import json;print(', '.join(x.split('.')[-1] for x in json.load(open('$d/meta.json')).get('functions_changed',[])))")
-  echo "| $id | $fn | ${obl:-NOT REPORTED}$( [ "$nf" != "0" ] && echo " [$nf without failing input]") | $rc |" >> $OUT
-  rm -rf replays/$pid /tmp/seed_$id.log
+  echo "| $id | $fn | ${obl:-NOT REPORTED}$( [ "$nf" != "0" ] && echo " [$nf without failing input]")$( [ "$ce" != "0" ] && echo " [checker error]") |" > /tmp/seedwt/rows/$id
 done
-cat $OUT
+LANE
+chmod +x /tmp/seedwt/lane.sh
+ls -d seeded/C*-* | sed -E 's/seeded\/(C[0-9]+)-.*/\1/' | sort -u | xargs -P "$JOBS" -n 1 /tmp/seedwt/lane.sh
+OUT=seeded/RESULTS.md
+echo "| seeded change | functions changed | reported by (obligations of the quick check) |" > $OUT
+echo "|---|---|---|" >> $OUT
+cat $(ls /tmp/seedwt/rows/* | sort) >> $OUT
+for w in /tmp/seedwt/C*; do [ -d "$w/.git" ] || [ -f "$w/.git" ] && git -C /repo worktree remove --force "$w" 2>/dev/null; done
+rm -rf /tmp/seedwt
+git -C /repo worktree prune
+grep -c "NOT REPORTED" $OUT
